@@ -566,5 +566,65 @@ theorem runSched_apply : ∀ (sch : List Nat) (ps : Nat → Prog Bool) (fs : FS)
     unfold tick
     cases ps i <;> rfl
 
+/-! ### interleaving of traces that are accepted process by process -/
+
+/-- the names the steps of different processes create are different, and none of them is already owned by
+    another process ("temp names of different processes are distinct") -/
+def CreatedDisjoint (st : AS) (t : Trace) : Prop :=
+  ∀ e ∈ t, ∀ p ∈ created e.op,
+    (∀ j ts, st p = some (j, ts) → j = e.pid) ∧ (∀ e' ∈ t, e'.pid ≠ e.pid → p ∉ created e'.op)
+
+theorem filter_pid_cons_same (e : Ev) (t : Trace) :
+    (e :: t).filter (fun x => x.pid == e.pid) = e :: t.filter (fun x => x.pid == e.pid) := by
+  simp [List.filter_cons]
+
+theorem filter_pid_cons_other (e : Ev) (t : Trace) (j : Nat) (h : j ≠ e.pid) :
+    (e :: t).filter (fun x => x.pid == j) = t.filter (fun x => x.pid == j) := by
+  have : (e.pid == j) = false := by simp [Ne.symm h]
+  simp [List.filter_cons, this]
+
+/-- Interleaving: if the steps of every single process, taken alone, obey the discipline in that process's
+    own view of the bookkeeping, and the processes create pairwise distinct names, then the interleaved trace
+    obeys the (global) discipline. -/
+theorem accepts_interleave : ∀ (t : Trace) (st : AS),
+    (∀ i, (acceptsFrom S (proj st i) (t.filter (fun x => x.pid == i))).isSome = true) →
+    CreatedDisjoint st t → (acceptsFrom S st t).isSome = true := by
+  intro t
+  induction t with
+  | nil => intro st _ _; rfl
+  | cons e t ih =>
+    intro st hloc hdis
+    have hl := hloc e.pid
+    rw [filter_pid_cons_same] at hl
+    simp only [acceptsFrom] at hl
+    cases hs : acceptStep S (proj st e.pid) e with
+    | none => rw [hs] at hl; cases hl
+    | some s1 =>
+      rw [hs] at hl
+      have hs' : acceptStep S (proj st e.pid) ⟨e.pid, e.op, e.res⟩ = some s1 := hs
+      obtain ⟨st', g1, g2⟩ := local_to_global st e.pid e.op e.res s1 hs'
+        (fun p hp j ts hst => (hdis e (List.mem_cons_self ..) p hp).1 j ts hst)
+      have g1' : acceptStep S st e = some st' := g1
+      simp only [acceptsFrom, g1']
+      apply ih st'
+      · intro j
+        by_cases hj : j = e.pid
+        · subst hj
+          rw [g2.mine]; exact hl
+        · rw [g2.others j hj]
+          have := hloc j
+          rw [filter_pid_cons_other e t j hj] at this
+          exact this
+      · intro e2 he2 p hp
+        refine ⟨?_, fun e' he' hne => (hdis e2 (List.mem_cons_of_mem _ he2) p hp).2 e' (List.mem_cons_of_mem _ he') hne⟩
+        intro j ts hst
+        rcases g2.entries p j ts hst with ⟨ts', h'⟩ | ⟨hj, hm⟩
+        · exact (hdis e2 (List.mem_cons_of_mem _ he2) p hp).1 j ts' h'
+        · subst hj
+          by_cases hpe : e2.pid = e.pid
+          · exact hpe.symm
+          · exact absurd hp ((hdis e (List.mem_cons_self ..) p hm).2 e2 (List.mem_cons_of_mem _ he2) hpe)
+
+
 end sched
 end Occa.BuildFS
